@@ -7007,7 +7007,14 @@ class Device(utils.CompositeEventEmitter):
     @with_connection_from_handle
     def on_gatt_pdu(self, connection: Connection, pdu: bytes):
         # Parse the L2CAP payload into an ATT PDU object
-        att_pdu = att.ATT_PDU.from_bytes(pdu)
+        try:
+            att_pdu = att.ATT_PDU.from_bytes(pdu)
+        except Exception as error:
+            # Requests that cannot be parsed must still be answered
+            if pdu and not pdu[0] & 1 and connection.gatt_server is not None:
+                connection.gatt_server.on_invalid_gatt_pdu(connection, pdu, error)
+                return
+            raise
 
         # Conveniently, even-numbered op codes are client->server and
         # odd-numbered ones are server->client
